@@ -391,3 +391,72 @@ pub fn mixed_family(count: usize) -> Vec<(String, Vec<Kv>)> {
     }
     out
 }
+
+/// Fan-out x output-width grid: for EVERY fan-out n in 0..=256 and every
+/// output width w in 0..=8 bytes a node with n transitions whose outputs need
+/// exactly w bytes, final or not, with leaf children or with children that are
+/// nodes themselves (larger address deltas). `part`/`parts` split the grid.
+pub fn fan_width_grid(part: usize, parts: usize) -> Vec<(String, Vec<Kv>)> {
+    let mut out = vec![];
+    let mut idx = 0usize;
+    for n in 0..=256usize {
+        for w in 0..=8usize {
+            for fin in [false, true] {
+                for ext in [false, true] {
+                    idx += 1;
+                    if idx % parts != part {
+                        continue;
+                    }
+                    // labels spread over the byte range (gaps between labels)
+                    let labels: Vec<u8> = (0..n).map(|i| ((i * 256) / n.max(1)) as u8).collect();
+                    let base: u64 = if w == 0 { 0 } else { 1u64 << (8 * (w - 1)) };
+                    let mut kvs: Vec<Kv> = vec![];
+                    if fin {
+                        kvs.push((b"k".to_vec(), if w == 0 { 0 } else { base + 7 }));
+                    }
+                    for (i, &b) in labels.iter().enumerate() {
+                        let v = if w == 0 { 0 } else { base + (mix64(i as u64 + 1000 * n as u64) % base.max(2)) };
+                        if ext {
+                            // the child is a node of its own with a distinct label
+                            kvs.push((vec![b'k', b, b'a' + (i % 23) as u8, (i % 251) as u8], v));
+                        } else {
+                            kvs.push((vec![b'k', b], v));
+                        }
+                    }
+                    // an unrelated later key sharing a suffix with the last child
+                    kvs.push((vec![b'r', b'y', b'a' + ((n + 22) % 23) as u8, (n.wrapping_sub(1) % 251) as u8], if w == 0 { 0 } else { 3 }));
+                    kvs.sort();
+                    kvs.dedup_by(|a, b| a.0 == b.0);
+                    out.push((format!("grid-n{}-w{}-f{}-x{}", n, w, fin as u8, ext as u8), kvs));
+                }
+            }
+        }
+    }
+    out
+}
+
+/// A file larger than 16 MiB made of few, large nodes: 40 x 210 nodes with 256
+/// transitions and 8-byte outputs each (4-byte address deltas in a 40-way
+/// indexed root... the root has 40 transitions and an index table).
+pub fn big_dense_family() -> Vec<Kv> {
+    big_dense_variant(0)
+}
+
+/// Variant `shift` prepends a key whose node occupies `shift` extra bytes, so
+/// that every later node lands at a different offset modulo 4.
+pub fn big_dense_variant(shift: usize) -> Vec<Kv> {
+    let mut kvs = Vec::with_capacity(40 * 210 * 256 + 1);
+    if shift > 0 {
+        // a chain of `shift` single-transition nodes with explicit (uncommon) inputs: 2 bytes each... use common inputs: 1 byte each
+        kvs.push((std::iter::once(b'!').chain(std::iter::repeat(b'a').take(shift)).collect(), 0));
+    }
+    for h in 0..40u8 {
+        for l in 0..210u8 {
+            for b in 0..=255u8 {
+                let i = ((h as u64) << 16) | ((l as u64) << 8) | b as u64;
+                kvs.push((vec![b'0' + h, l, b], (1u64 << 56) | (mix64(i) >> 9)));
+            }
+        }
+    }
+    kvs
+}
